@@ -13,7 +13,7 @@ RULE = ('pages with 0-14 regions with unique ids: grids, columns, mutually overl
         'ImageWidthDenominator 1-1500. non-trivial = at least 2 regions; distinct = hash of the page description and sorter parameters')
 ASSUMPTIONS = ['regions have unique ids and polygons of at least 3 points', 'the naive sorter is driven with eps >= 1 (DBSCAN rejects eps = 0)',
                'termination is decided as bounded progress: traced line events inside the sorter modules stay below STEP_BUDGET(n); a hang inside a binary dependency would show as the wall-clock watchdog (inconclusive)',
-               'geometry tolerance: symmetric difference <= 1e-6 * area + 1e-6 (de-skew rotates there and back in float64)']
+               'geometry tolerance: boundaries within 1e-6 px of each other (Hausdorff distance) and equal area (de-skew rotates there and back in float64); GEOS overlay operations are not used because they are unreliable for nearly coincident polygons']
 N = {'quick': 1500, 'thorough': 60000}
 CLASSES = ['grid', 'columns', 'overlap', 'identical', 'degenerate', 'poly', 'nested', 'empty_or_single', 'overlap_slanted', 'grid_slanted']
 REQUIRED = ['smart_runs', 'naive_runs', 'deskewed_pages', 'decouple_calls', 'regions_compared']
@@ -110,17 +110,11 @@ def build(L, case):
 
 
 def same_shape(a, b, line=False):
-    from shapely.geometry import Polygon, LineString
+    from vf.genlib import same_polygon_shape
     a, b = np.asarray(a, dtype=np.float64), np.asarray(b, dtype=np.float64)
     if line:
         return a.shape == b.shape and np.abs(a - b).max() <= 1e-6
-    pa, pb = Polygon(a), Polygon(b)
-    if not pa.is_valid or not pb.is_valid or pb.area == 0:
-        # degenerate / self-touching: compare the point sets instead (closing point and start vertex may differ)
-        sa = {(round(x, 5), round(y, 5)) for x, y in a}
-        sb = {(round(x, 5), round(y, 5)) for x, y in b}
-        return sa == sb
-    return pa.symmetric_difference(pb).area <= 1e-6 * pb.area + 1e-6
+    return same_polygon_shape(a, b, 1e-6)
 
 
 def run_sorter(sorter, img, pl, ctx, budget):
